@@ -275,6 +275,11 @@ impl ControlFlowGraph {
 
                 // remove the block we just merged
                 self.graph.remove_vertex(successor_index)?;
+
+                // the exit block now lives on in the block it was merged into
+                if self.exit == Some(successor_index) {
+                    self.exit = Some(merge_index);
+                }
             }
         }
         Ok(())
